@@ -21,3 +21,60 @@ SOURCES = [
     "def z(a, b):\n    return {\n        'k': [a,\n              b],\n        'j': (a,),\n    }, (\n        a\n        + b\n    )\n",
     "def z(a, b):\n    print(a, b, sep='-', end='')\n    r = range(a)\n    return list(r), abs(-a), int('3'), float(b), len('ab'), sorted([b, a]), any([a]), all([b])\n",
 ]
+
+# the same literal operand used by two generated expressions (chained comparisons, augmented assignments)
+SOURCES.append('''def z(a, b):
+    r = a < 0 < b
+    if a <= 1 <= b > 0:
+        r = 1 < a < 2.5 < b
+    if 'k' == a == 'k':
+        r = None is a is None
+    return r, -1 < b < -1
+''')
+SOURCES.append('''def z(a, b):
+    x = [1, 2]
+    x[0] += 1
+    a += 10
+    b -= 10
+    if a:
+        x[1] *= 2
+        a //= 3
+    return x, a, b
+''')
+# doc strings: several paragraphs, also on a nested function and a class
+SOURCES.append('''def z(a, b):
+    """Summary line.
+
+    Second paragraph after an empty line.
+
+
+    Third, after two.
+    """
+    def inner(q):
+        \'\'\'Inner doc.
+
+        More inner doc.
+        \'\'\'
+        if q:
+            return 1
+        return 0
+    class K:
+        """Class doc.
+
+        Paragraph."""
+    s = \'\'\'text
+
+with empty line\'\'\'
+    if a:
+        s = inner(b)
+    return s, inner.__doc__, K.__doc__
+''')
+SOURCES.append('''def z(a, b):
+    'one line doc'
+    t = (a,
+
+         b)
+    while a > 0 < b:
+        a -= 1
+    return t, a
+''')
